@@ -776,6 +776,42 @@ def case_orient(c):
                     break
         if len(viol) > 6:
             break
+    # receivers given as 2-D (and 3-D) coordinate ARRAYS (an acquisition
+    # patch from meshgrid): entry [i, j] is the sample of receiver [i, j]
+    if c['lo'] == 0:
+        from emg3d import fields as _f
+        xs = np.array([P[1][0], P[len(P)//2][0], P[-2][0], grid.nodes_x[0]
+                       - 5.0, P[3][0]])
+        ys = np.array([P[1][1], P[-2][1], P[len(P)//3][1]])
+        for shp in ('ij', 'xy', '3d'):
+            if shp == '3d':
+                X, Y, Z = np.meshgrid(xs, ys, np.array([P[1][2], P[-2][2]]),
+                                      indexing='ij')
+            else:
+                X, Y = np.meshgrid(xs, ys, indexing=shp)
+                Z = np.full(X.shape, P[len(P)//2][2]) + 0.1*X - 0.1*X[0, 0]
+            for fld, tri, sc, kind in ((F, tri_e, sc_e, 'electric'),
+                                       (H, tri_h, sc_h, 'magnetic')):
+                with warnings.catch_warnings(), np.errstate(all='ignore'):
+                    warnings.simplefilter('ignore')
+                    got = np.asarray(_f.get_receiver(
+                        fld, (X, Y, Z, 30.0, 10.0), 'linear'))
+                want = np.array([_rx1(fld, (x_, y_, z_), 30.0, 10.0)
+                                 for x_, y_, z_ in zip(X.ravel(), Y.ravel(),
+                                                       Z.ravel())]
+                                ).reshape(X.shape)
+                compared += X.size
+                okn = np.array_equal(np.isnan(got), np.isnan(want))
+                fin_ = np.isfinite(want)
+                if got.shape != X.shape or not okn or (fin_.any() and np.abs(
+                        got[fin_] - want[fin_]).max() > 1e-12*sc):
+                    viol.append({
+                        'cls': f'{kind}-receivers-given-as-nd-array-are-'
+                               'permuted',
+                        'what': f'coordinates of shape {X.shape} '
+                                f'(meshgrid {shp}): entry-wise result '
+                                'differs from single-receiver calls (NaN '
+                                f'pattern equal: {okn})'})
     return {'viol': viol, 'compared': compared, 'transitions': 2*len(sets),
             'nontrivial': len(sets) > 0,
             'outcome': (c['lo'] // 1000, len(viol) > 0),
@@ -837,6 +873,75 @@ def hseq_cases(tier):
             for seq in itertools.product(SEQ_FREQS, repeat=d):
                 out.append({'grid': GRIDS_Q[0], 'model': ms,
                             'seq': list(seq)})
+    return out
+
+
+# --------------------------------------------------------------------------
+# sampling through a Survey / Simulation: every slot gets its own receiver
+
+FN_SV = 'mc.checks.c09_receivers:case_survey'
+
+
+def case_survey(c):
+    """A Simulation samples the computed fields for all receivers of its
+    survey: the datum of (source, receiver) equals the single-receiver
+    sample of that source's field at THAT receiver (its position, orientation
+    and type), for every ordering of electric and magnetic receivers."""
+    import emg3d
+    from ..refmodel import adjoint
+    grid = zoo.mesh({'shape': (5, 6, 5), 'w': ('geo', 'alt', 'rnd')})
+    model = zoo.model(grid, {'case': 'VTI', 'prof': 'rnd'})
+    P = interior_positions(grid, FRACS_Q)
+    pos = [P[2], P[len(P)//3], P[len(P)//2], P[-3], P[len(P)//4]]
+    ang = [(20.0, 5.0), (-40.0, 10.0), (90.0, 0.0), (135.0, -30.0),
+           (0.0, 90.0)]
+    recs = []
+    for k, t in enumerate(c['types']):
+        cls = emg3d.RxElectricPoint if t == 'E' else emg3d.RxMagneticPoint
+        recs.append(cls((*pos[k], *ang[k])))
+    srcs = [emg3d.TxElectricPoint((*P[len(P)//2 + 7], 30.0, 10.0)),
+            emg3d.TxElectricDipole((*P[len(P)//2 - 9], -60.0, 20.0),
+                                   length=5.0)]
+    survey = emg3d.Survey(srcs, recs, c['freq'])
+    viol, compared = [], 0
+    with warnings.catch_warnings():
+        warnings.simplefilter('ignore')
+        sim = emg3d.Simulation(survey, model, gridding='same', max_workers=1,
+                               receiver_interpolation='linear',
+                               tqdm_opts=False, verb=-1)
+        with adjoint.exact_mode():
+            sim.compute()
+        data = np.asarray(sim.data.synthetic.data)
+        for i, sk in enumerate(survey.sources):
+            for fk in survey.frequencies:
+                E = sim.get_efield(sk, fk)
+                H = sim.get_hfield(sk, fk)
+                for j, (rk, rec) in enumerate(survey.receivers.items()):
+                    fld = E if rec.xtype == 'electric' else H
+                    want = _rx1(fld, rec.coordinates[:3],
+                                rec.coordinates[3], rec.coordinates[4])
+                    got = data[i, j, 0]
+                    compared += 1
+                    sc = np.abs(fld.field).max()
+                    if not abs(got - want) <= 1e-12*sc:
+                        viol.append({
+                            'cls': 'survey-datum-is-not-the-sample-at-its-'
+                                   'own-receiver',
+                            'what': f'receiver types {c["types"]}: datum of '
+                                    f'({sk}, {rk}) = {got:.4e}, sample of '
+                                    f'the {rec.xtype} field at that receiver '
+                                    f'= {want:.4e}'})
+    return {'viol': viol[:5], 'compared': compared,
+            'transitions': len(c['types']), 'nontrivial': True,
+            'outcome': (c['types'], bool(viol))}
+
+
+def survey_cases(tier):
+    out = []
+    n = 4 if tier == 'quick' else 5
+    for types in itertools.product('EM', repeat=n):
+        for freq in ((1.0,) if tier == 'quick' else (1.0, -2.0)):
+            out.append({'types': ''.join(types), 'freq': freq})
     return out
 
 
@@ -902,6 +1007,14 @@ def run(ctx):
                  'instance; every result = reference Faraday law for its own '
                  's; non-trivial = more than one call',
             time_cap=ctx.budget or (240 if q else 600))
+    if ctx.wants('survey-sampling'):
+        ctx.explore(
+            'survey-sampling', FN_SV, survey_cases(ctx.tier), engine='E1',
+            rule='all 2^4 (thorough 2^5) orderings of electric / magnetic '
+                 'receivers in one survey x 2 sources: every datum of the '
+                 'real Simulation (exact-solve mode) = single-receiver '
+                 'sample of that source field at that receiver',
+            time_cap=ctx.budget or (240 if q else 600), chunksize=1)
     if ctx.wants('nan'):
         ctx.explore(
             'nan', FN_N, nan_cases(ctx.tier), engine='E1',
